@@ -124,6 +124,7 @@ pub fn handle(mode: &str, j: &J) -> J {
             json!({"n": words.len(), "bits": bits})
         }
         "json" => crate::sweep::json_case(j["text"].as_str().unwrap()),
+        "json_deep" => crate::sweep::json_deep(j["kind"].as_str().unwrap(), j["depth"].as_u64().unwrap() as usize),
         "ftext" => {
             // text of floats as serde_json::to_string and as Rust's Display print them (oracle for C14)
             let bits: Vec<u64> = j["bits"].as_array().unwrap().iter().map(|b| u64::from_str_radix(b.as_str().unwrap(), 16).unwrap()).collect();
